@@ -100,6 +100,8 @@ class Block(Entity):
                 extcreated = True
             mtag = MultiTag.create_new(self.file, self, multi_tags,
                                        name, type_, positions)
+            if extents is not None:
+                mtag.extents = extents
         except Exception as exp:
             msg = "MultiTag Creation Failed"
             if name in multi_tags:
@@ -116,8 +118,6 @@ class Block(Entity):
             print(msg)
             raise exp
 
-        if extents is not None:
-            mtag.extents = extents
         return mtag
 
     # Tag
